@@ -35,7 +35,7 @@ for p in props:
          "evidence_file": f"/verif/evidence/{pid}.json",
          "replay_cmd_template": "./check replay {path}",
          "engine": "gosym",
-         "level_claimed": {"category": "model_checking", "text": c["text"], "design_ref": c.get("design_ref", "DESIGN.md §7 " + pid)},
+         "level_claimed": {"category": "model_checking", "text": c["text"], "design_ref": c.get("design_ref", "DESIGN.md §7 " + pid + " (plan), §11.3 and §11.6 (as built)")},
          "level_note": c["note"],
          "technique": c.get("technique", "symbolic execution of the real Go code via go/ssa into SMT (z3), bounded; one inductive step from an arbitrary valid state; native replay of counterexamples")
         })
